@@ -54,12 +54,12 @@ func (testSuite *TestSuite) Tests() int {
 	return len(testSuite.TestCases)
 }
 
-// FlakyPasses returns the number of TestCases which succeeded after some number of executions.
+// FlakyPasses returns the number of TestCases which succeeded after some number of unsuccessful executions.
 func (testSuite TestSuite) FlakyPasses() int {
 	flakyPasses := 0
 
 	for _, result := range testSuite.TestCases {
-		if result.Success() != nil && len(result.Executions) > 1 {
+		if result.Success() != nil && (len(result.Failures()) > 0 || len(result.Errors()) > 0) {
 			flakyPasses++
 		}
 	}
